@@ -136,7 +136,7 @@ func (e *Exec) callStatic(fr *frame, st *State, fn *ssa.Function, args, bindings
 		name = o.String()
 	}
 	if strings.Contains(name, "verif_") {
-		if i := strings.LastIndex(name, "."); i >= 0 && strings.HasPrefix(name[i+1:], "verif_") && !strings.HasPrefix(name[i+1:], "verif_C_") && !strings.HasPrefix(name[i+1:], "verif_I_") {
+		if i := strings.LastIndex(name, "."); i >= 0 && strings.HasPrefix(name[i+1:], "verif_") && !strings.HasPrefix(name[i+1:], "verif_C_") && !strings.HasPrefix(name[i+1:], "verif_I_") && name[i+1:] != "verif_maphas" {
 			return e.verifIntrinsic(fr, st, name[i+1:], fn, args, resType, pos)
 		}
 	}
@@ -286,6 +286,11 @@ func (e *Exec) atTarget(fr *frame, st *State, h *hctx, fn *ssa.Function, args []
 	} else {
 		fs = &frameSpec{all: true, snapAlloc: st.Alloc, deny: h.frame.deny}
 	}
+	if len(h.calleeKeep) > 0 && !h.apply {
+		saveKeep := e.keepOnHavoc
+		e.keepOnHavoc = h.calleeKeep
+		defer func() { e.keepOnHavoc = saveKeep }()
+	}
 	if h.con.NoSafety {
 		e.noSafety++
 		defer func() { e.noSafety-- }()
@@ -323,7 +328,22 @@ func (e *Exec) applyHavoc(st *State, h *hctx, fn *ssa.Function, resType types.Ty
 	}
 	if !h.hasMod || h.frame.all {
 		e.Abstracted["(modifies *) "+h.con.Display()] = true
+		// locations the contract promises to preserve survive the havoc
+		type keep struct {
+			loc frameLoc
+			val *smt.Term
+		}
+		var keeps []keep
+		for _, l := range h.frame.deny {
+			if hs, ok := e.heapSort[l.key]; ok {
+				keeps = append(keeps, keep{l, smt.Select(e.heap(st, l.key, hs), l.addr)})
+			}
+		}
 		e.havocAll(st, h.con.Display(), h.callPos)
+		for _, k := range keeps {
+			hs := e.heapSort[k.loc.key]
+			st.Heaps[k.loc.key] = smt.Store(e.heap(st, k.loc.key, hs), k.loc.addr, k.val)
+		}
 	} else {
 		saveSpec := e.spec
 		e.spec = 0
@@ -556,6 +576,22 @@ func (e *Exec) verifIntrinsic(fr *frame, st *State, name string, fn *ssa.Functio
 		e.heapSort[hk] = hs
 		e.heapSort[vk] = vs
 		h.frame.locs = append(h.frame.locs, frameLoc{hk, args[0]}, frameLoc{vk, args[0]})
+		return unit
+	case "verif_callees_preserve":
+		h := e.curH()
+		pt := fn.Params[0].Type().Underlying().(*types.Pointer).Elem()
+		tmp := &frameSpec{}
+		e.addFrameLocs(tmp, args[0], pt)
+		h.calleeKeep = append(h.calleeKeep, tmp.locs...)
+		e.W.Note("assumed: callees without a contract called from " + h.con.Display() + " do not write the locations listed in its callees-preserve clause")
+		return unit
+	case "verif_preserves_map":
+		h := e.curH()
+		mt := fn.Params[0].Type().Underlying().(*types.Map)
+		hk, hs, vk, vs := e.mapHeaps(mt)
+		e.heapSort[hk] = hs
+		e.heapSort[vk] = vs
+		h.frame.deny = append(h.frame.deny, frameLoc{hk, args[0]}, frameLoc{vk, args[0]})
 		return unit
 	case "verif_preserves", "verif_preserves_obj":
 		h := e.curH()
